@@ -30,6 +30,9 @@ type c11Case struct {
 	// an enclosing filter answers EPERM to prctl(PR_SET_NO_NEW_PRIVS): a requested bit cannot be set, so nothing may
 	// be installed.
 	Own string `json:"own,omitempty"`
+	// PreNNP (unlocked callers with NNP requested): the calling goroutine sets the bit itself right before the load, on
+	// whatever thread it runs; the load may be resumed on another thread that does not have it
+	PreNNP bool `json:"pre_nnp,omitempty"`
 }
 
 func drawC11(t *rapid.T) c11Case {
@@ -66,6 +69,9 @@ func drawC11(t *rapid.T) c11Case {
 		if c.Own != "prior-nnp" {
 			c.Uid = 0
 		}
+	}
+	if !c.Locked && c.NNP && c.Own == "" && rapid.IntRange(0, 2).Draw(t, "preNNP") == 0 {
+		c.PreNNP, c.Strace = true, false
 	}
 	if c.Sched != (kjob.Sched{}) && c.Spinners < 2*c.GOMAXPROCS {
 		// keep every P busy, otherwise the descheduled goroutine simply resumes where it was
@@ -124,7 +130,7 @@ func checkC11(raw json.RawMessage) (ev.Result, error) {
 	job.Steps = append(job.Steps, kjob.Step{Op: "allstatus"})
 	stLoad := len(job.Steps)
 	job.Steps = append(job.Steps, kjob.Step{Op: "load", Thread: thread, Sched: &sched,
-		Filter: &kjob.FilterSpec{Policy: c10Policy(), NNP: c.NNP, Flag: c.Flag, HostArch: true}})
+		Filter: &kjob.FilterSpec{Policy: c10Policy(), NNP: c.NNP, Flag: c.Flag, HostArch: true, PreNNP: c.PreNNP && c.NNP && !c.Locked}})
 	job.Steps = append(job.Steps, kjob.Step{Op: "stop-spinners"})
 	stAfter := len(job.Steps)
 	job.Steps = append(job.Steps, kjob.Step{Op: "allstatus"})
@@ -177,6 +183,9 @@ func checkC11(raw json.RawMessage) (ev.Result, error) {
 	desc := fmt.Sprintf("uid %d, no_new_privs=%v, flags %#x, perturbation %+v with %d spinners, GOMAXPROCS %d, %d earlier load(s) on other threads", c.Uid, c.NNP, c.Flag, c.Sched, c.Spinners, c.GOMAXPROCS, c.Prior)
 	if c.Prior > 0 {
 		res.Classes = append(res.Classes, "after-loads-on-other-threads")
+	}
+	if c.PreNNP {
+		res.Classes = append(res.Classes, "caller-set-the-bit-itself-right-before")
 	}
 	if c.Own != "" {
 		desc += ", calling thread: " + c.Own
@@ -274,7 +283,7 @@ func checkC11(raw json.RawMessage) (ev.Result, error) {
 			return res, fmt.Errorf("privileged load without no_new_privs failed: %s", ld.Err)
 		}
 	}
-	if c.Strace {
+	if c.Strace && !c.PreNNP {
 		// order and thread of the two system calls at the boundary
 		var calls []kchild.SysCall
 		for _, s := range rr.Strace {
